@@ -277,6 +277,23 @@ def asym_perchannel(spec, draw, st):
     return "asym-pertensor"
 
 
+def pad_tail(spec, draw, st):
+    """PAD of the channel dimension together with height/width behind the first model output (the compiler splits such a PAD and rewrites its constant paddings)"""
+    if not spec["outputs"]:
+        return None
+    cur = spec["outputs"][0]
+    T = spec["tensors"][cur]
+    if len(T["shape"]) != 4 or T["dtype"] not in ("int8", "uint8") or T.get("scale") is None or isinstance(T["scale"], list):
+        return None
+    p = [[0, 0], [draw(st.integers(0, 2)), draw(st.integers(1, 2))], [draw(st.integers(0, 2)), draw(st.integers(0, 2))], [draw(st.integers(1, 3)), draw(st.integers(0, 3))]]
+    n = len(spec["tensors"])
+    spec["tensors"].append(dict(name="pads_tail_%d" % n, shape=[4, 2], dtype="int32", scale=None, zp=None, data=dict(values=[v for pr in p for v in pr])))
+    spec["tensors"].append(dict(name="pad_tail_%d" % n, shape=[s_ + a + b for s_, (a, b) in zip(T["shape"], p)], dtype=T["dtype"], scale=T["scale"], zp=T["zp"], data=None))
+    spec["ops"].append(dict(code="PAD", inputs=[cur, n], outputs=[n + 1], opts=dict(table="PadOptions", fields={}), version=2, custom_code=None, custom_options=None))
+    spec["outputs"] = [n + 1] + list(spec["outputs"][1:])
+    return "pad-tail"
+
+
 TRANSFORMS = [asym_perchannel, strip_const, cut_input, empty_const, variable, axis_rank1, no_quant, odd_quant, shape_signature, dead_op, dup_names, self_binary, output_is_input, wide_dtype]
 
 
